@@ -643,6 +643,8 @@ class Interp:
             return simplify_value(subst_index(val, u))
         if arr.kind == "zeros":
             return V.const(0)
+        if arr.kind == "ones":
+            return V.const(1)
         if arr.kind == "input":
             return opaque_atom(arr.desc, idx)
         self.err(node, "read of uninitialised slot of %s" % arr.desc)
@@ -719,6 +721,8 @@ class Interp:
         if isinstance(base, View):
             spec = self.compose(base, spec, node)
             base = base.base
+        if isinstance(base, OpqArr) and hasattr(base, "sub"):
+            return base.sub(self, spec, node)
         if _is_opqarr(base):
             full = list(spec)
             if base.ndim is not None:
@@ -1217,6 +1221,15 @@ class Lazy(OpqArr):
             if nd is not None:
                 self.ndim = max(self.ndim or 0, nd)
 
+    def sub(self, it, spec, node):
+        if all(s[0] == "fix" for s in spec) and (self.ndim is None or len(spec) == self.ndim):
+            return self.at([s[1] for s in spec])
+        full = list(spec)
+        if self.ndim is not None:
+            while len(full) < self.ndim:
+                full.append(("all",))
+        return View(self, full)
+
     def at(self, idx):
         xs = []
         for o in self.operands:
@@ -1250,29 +1263,6 @@ def _ndim(o):
 
 def _is_opqarr(v):
     return isinstance(v, OpqArr)
-
-
-_orig_subscript = Interp.subscript
-
-
-def _subscript(self, base, spec, node):
-    if isinstance(base, Lazy):
-        if all(s[0] == "fix" for s in spec) and (base.ndim is None or len(spec) == base.ndim):
-            return base.at([s[1] for s in spec])
-        full = list(spec)
-        if base.ndim is not None:
-            while len(full) < base.ndim:
-                full.append(("all",))
-        return View(base, full)
-    if isinstance(base, View) and isinstance(base.base, Lazy):
-        spec2 = self.compose(base, spec, node)
-        if all(s[0] == "fix" for s in spec2):
-            return base.base.at([s[1] for s in spec2])
-        return View(base.base, spec2)
-    return _orig_subscript(self, base, spec, node)
-
-
-Interp.subscript = _subscript
 
 
 def describe(a):
@@ -1459,11 +1449,11 @@ def _np_zeros(kind):
         if isinstance(shp, (int, V)):
             shp = [shp]
         shp = list(shp)
-        if all(isinstance(s, int) for s in shp) and kind == "zeros":
+        if all(isinstance(s, int) for s in shp) and kind in ("zeros", "ones"):
             n = 1
             for s in shp:
                 n *= s
-            return Tensor(tuple(shp), [V.const(0)] * n)
+            return Tensor(tuple(shp), [V.const(0 if kind == "zeros" else 1)] * n)
         if all(isinstance(s, int) for s in shp):
             n = 1
             for s in shp:
@@ -1555,34 +1545,90 @@ class AtLeast2D(OpqArr):
         OpqArr.__init__(self, "atleast2d", 2)
         self.ref = ref
 
-
-_orig2 = Interp.subscript
-
-
-def _subscript2(self, base, spec, node):
-    if isinstance(base, AtLeast2D):
-        nd = _ndim(base.ref)
+    def sub(self, it, spec, node):
+        nd = _ndim(self.ref)
         if nd == 2:
-            return _orig2(self, base.ref, spec, node)
-        # rank-1 (or unknown treated as rank-1 when first index is literal 0)
+            return it.subscript(self.ref, spec, node)
         if spec and spec[0][0] == "fix":
             i0 = spec[0][1]
-            if isinstance(i0, int) and i0 == 0 or (isinstance(i0, V) and i0.iszero()):
-                return _orig2(self, base.ref, spec[1:], node)
-            # symbolic leading index over a dimension of extent 1
+            if _try_int(i0) == 0:
+                return it.subscript(self.ref, spec[1:], node)
             p = tov(i0).aspoly()
             if p is not None and len(p.t) == 1:
                 (k, c), = p.t.items()
                 if len(k) == 1 and RANGES.get(k[0][0]) is not None and RANGES[k[0][0]].eq(V.const(1)):
-                    return _orig2(self, base.ref, spec[1:], node)
+                    return it.subscript(self.ref, spec[1:], node)
         raise AnalysisError("KEX: cannot resolve leading index of atleast_2d view")
-    return _orig2(self, base, spec, node)
 
 
-Interp.subscript = _subscript2
+class Stack(OpqArr):
+    """np.vstack of rank-1 array-likes: [k, j] -> operand_k[j]."""
+
+    def __init__(self, ops):
+        OpqArr.__init__(self, "vstack", 2)
+        self.ops = ops
+
+    def sub(self, it, spec, node):
+        if len(spec) == 2 and spec[0][0] == "fix" and spec[1][0] == "fix":
+            k = _try_int(spec[0][1])
+            if k is not None:
+                if not 0 <= k < len(self.ops):
+                    it.err(node, "vstack row out of range")
+                op = self.ops[k]
+                return it.index(op, [spec[1][1]], node) if isinstance(op, (Arr, View, OpqArr, Tensor)) else op
+            total = V.const(0)
+            for c, op in enumerate(self.ops):
+                val = it.index(op, [spec[1][1]], node) if isinstance(op, (Arr, View, OpqArr, Tensor)) else op
+                total = total + tov(val) * opaque_atom("δ", [tov(spec[0][1]), c])
+            return total
+        full = list(spec) + [("all",)] * (2 - len(spec))
+        return View(self, full)
+
+
+class Expand(OpqArr):
+    """np.expand_dims(a, 0)."""
+
+    def __init__(self, ref):
+        nd = _ndim(ref)
+        OpqArr.__init__(self, "expand_dims", None if nd is None else nd + 1)
+        self.ref = ref
+
+    def sub(self, it, spec, node):
+        if spec and spec[0][0] == "fix":
+            if _try_int(spec[0][1]) == 0:
+                return it.subscript(self.ref, spec[1:], node) if spec[1:] else self.ref
+            it.err(node, "index into expand_dims axis is not 0")
+        nd = self.ndim
+        full = list(spec) + ([("all",)] * (nd - len(spec)) if nd else [])
+        return View(self, full)
+
+
+def _np_vstack(it, args, kw, e):
+    ops = args[0]
+    if not isinstance(ops, (tuple, list)) or not ops:
+        it.err(e, "vstack of non-tuple")
+    return Stack(list(ops))
+
+
+def _np_expand_dims(it, args, kw, e):
+    if len(args) != 2 or args[1] != 0:
+        it.err(e, "expand_dims on an axis other than 0")
+    return Expand(args[0])
+
+
+def _np_eye(it, args, kw, e):
+    n = args[0]
+    if not isinstance(n, int):
+        it.err(e, "eye of symbolic size")
+    return Tensor((n, n), [V.const(1 if i == j else 0) for i in range(n) for j in range(n)])
+
 
 _NP_FUNCS = {}
 for _p in ("_np", "np", "numpy"):
+    _NP_FUNCS[_p + ".ones"] = _np_zeros("ones")
+    _NP_FUNCS[_p + ".vstack"] = _np_vstack
+    _NP_FUNCS[_p + ".expand_dims"] = _np_expand_dims
+    _NP_FUNCS[_p + ".eye"] = _np_eye
     _NP_FUNCS[_p + ".zeros"] = _np_zeros("zeros")
     _NP_FUNCS[_p + ".empty"] = _np_zeros("empty")
     _NP_FUNCS[_p + ".array"] = _np_array
